@@ -3,9 +3,11 @@
    Require it here and append it to `dispatchers`. *)
 From Coq Require Import String.
 From Cedar Require Export Run.
+From Cedar Require Export ConformRun.
 
 Definition dispatchers : list (string -> list sexp -> option sexp) :=
   [ run_core
+  ; run_conform
   ].
 
 Fixpoint dispatch (ds : list (string -> list sexp -> option sexp)) (cmd : string) (args : list sexp) : sexp :=
